@@ -10,6 +10,12 @@ succeeds, every record file is byte-identical to its old or its new form, everyt
 fresh reader reports (declarations, tags) with Model/CrashDb.read_db on the model's crash store for the same number of
 completed effects.  For every operation the ordered record-level effects (kind, path) of its completed run are
 compared with Model/CrashDb.image of Db.effects on the model state reached by the same history.
+The reader-level oracle (view_frame) names the targets of the command - the declaration it declares or undeclares,
+the tag assignment it makes or removes, the tags pointing at an undeclared version for its flavor - and demands every
+other declaration and tag assignment exactly as before at every crash point and after completion (theorems
+crash_untouched_by_command_is_untouched, crash_undeclare_frame).  Cases marked cache also make the effects on the
+product cache crash points (utils.AtomicFile / ProductStack.persist) with TMPDIR across an emulated file-system
+boundary; the calls seen on the cache file itself are compared with Model/CrashXdev.target_kinds.
 """
 import json
 import os
@@ -170,20 +176,57 @@ def install_listdir(mode):
     os.listdir = listdir
 
 
-def install_injector(stack, kill_at, trace, flush=True):
-    """count the file-system effects on <stack>/ups_db; before effect number kill_at the process dies"""
+def install_injector(stack, kill_at, trace, flush=True, cache=False, tmproot=None):
+    """count the file-system effects on <stack>/ups_db; before effect number kill_at the process dies.
+    cache=True: the effects on everything else the command writes below the work directory are crash points too
+    (kinds c-open, c-write, c-close, c-rename, c-unlink: the product cache <flavor>.pickleDB*, which every mutating
+    command rewrites last through utils.AtomicFile / ProductStack.persist, its temporary file wherever it is created,
+    user caches), and tmproot - the directory TMPDIR names in this process - lies on ANOTHER FILE SYSTEM than the stack
+    and the user data: rename and link across that boundary fail with EXDEV, as they do between two mounts"""
     import builtins
+    import errno
     root = os.path.join(stack, "ups_db") + os.sep
+    work = os.path.dirname(os.path.abspath(stack)) + os.sep
     state = {"n": 0}
+    fds = {}
 
     def tracked(path):
         try:
-            p = os.path.abspath(str(path))
+            p = os.path.abspath(os.fsdecode(path))
         except Exception:  # noqa
             return None
         if not p.startswith(root) or ".pickleDB" in p or "_caches_" in p:
             return None
         return os.path.relpath(p, stack)
+
+    def ctracked(path):
+        """other files of the work area a command may write: caches and temporaries (never a product directory)"""
+        if not cache or isinstance(path, int):
+            return None
+        try:
+            p = os.path.abspath(os.fsdecode(path))
+        except Exception:  # noqa
+            return None
+        if not p.startswith(work) or tracked(p) is not None:
+            return None
+        rel = os.path.relpath(p, work)
+        top = rel.split(os.sep)
+        if top[0] == "stack" and len(top) > 2 and top[1] != "ups_db":
+            return None                  # <stack>/<flavor>/<product>/...: installed products
+        if top[0] == "keep":
+            return None
+        return rel
+
+    def other_fs(a, b):
+        if tmproot is None:
+            return False
+        t = os.path.abspath(tmproot) + os.sep
+        try:
+            ia = (os.path.abspath(os.fsdecode(a)) + os.sep).startswith(t)
+            ib = (os.path.abspath(os.fsdecode(b)) + os.sep).startswith(t)
+        except Exception:  # noqa
+            return False
+        return ia != ib
 
     def effect(kind, rel, extra=None):
         if kill_at is not None and state["n"] == kill_at:
@@ -195,10 +238,12 @@ def install_injector(stack, kill_at, trace, flush=True):
 
     orig_open = builtins.open
 
-    def wrap(mod, name, kind, argidx=0):
+    def wrap(mod, name, kind, argidx=0, two=False):
         orig = getattr(mod, name)
 
         def w(*a, **k):
+            if two and len(a) > 1 and other_fs(a[0], a[1]):
+                raise OSError(errno.EXDEV, "Invalid cross-device link", os.fsdecode(a[0]))
             rel = tracked(a[argidx]) if len(a) > argidx else None
             if rel is not None:
                 extra = None
@@ -209,6 +254,10 @@ def install_injector(stack, kill_at, trace, flush=True):
                     except Exception:  # noqa
                         extra = None
                 effect(kind, rel, extra)
+            elif len(a) > argidx:
+                rel = ctracked(a[argidx])
+                if rel is not None and kind in ("rename", "unlink"):
+                    effect("c-" + kind, rel)
             return orig(*a, **k)
         setattr(mod, name, w)
 
@@ -216,8 +265,9 @@ def install_injector(stack, kill_at, trace, flush=True):
     wrap(os, "unlink", "unlink")
     wrap(os, "rmdir", "rmdir")
     wrap(os, "mkdir", "mkdir")
-    wrap(os, "rename", "rename", 1)
-    wrap(os, "replace", "rename", 1)
+    wrap(os, "rename", "rename", 1, two=True)
+    wrap(os, "replace", "rename", 1, two=True)
+    wrap(os, "link", "rename", 1, two=True)
     orig_makedirs = os.makedirs
 
     def makedirs(name, *a, **k):
@@ -228,22 +278,33 @@ def install_injector(stack, kill_at, trace, flush=True):
     os.makedirs = makedirs
 
     class Proxy(object):
-        def __init__(self, f, rel):
-            self._f, self._rel = f, rel
+        def __init__(self, f, rel, pre=""):
+            self._f, self._rel, self._pre = f, rel, pre
+            if pre:
+                try:
+                    self._fd = f.fileno()
+                    fds[self._fd] = rel
+                except Exception:  # noqa
+                    self._fd = None
 
         def write(self, s):
-            effect("write", self._rel)
+            effect(self._pre + "write", self._rel)
             r = self._f.write(s)
             if flush:
                 self._f.flush()       # every write reaches the disk at once: partial contents become visible
             return r                  # (otherwise python buffers and a kill loses what was not yet closed)
 
         def close(self):
-            effect("close", self._rel)
+            effect(self._pre + "close", self._rel)
+            if self._pre:
+                fds.pop(self._fd, None)
             return self._f.close()
 
         def __getattr__(self, n):
             return getattr(self._f, n)
+
+        def __iter__(self):
+            return iter(self._f)
 
         def __enter__(self):
             return self
@@ -252,12 +313,39 @@ def install_injector(stack, kill_at, trace, flush=True):
             self.close()
 
     def open_w(file, mode="r", *a, **k):
-        rel = tracked(file) if isinstance(file, (str, bytes, os.PathLike)) else None
+        isname = isinstance(file, (str, bytes, os.PathLike))
+        rel = tracked(file) if isname else None
         if rel is not None and any(c in mode for c in "wax+"):
             effect("open", rel)
             return Proxy(orig_open(file, mode, *a, **k), rel)
+        rel = ctracked(file) if isname else None
+        if rel is not None and any(c in mode for c in "wax+"):
+            effect("c-open", rel)         # created or truncated
+            return Proxy(orig_open(file, mode, *a, **k), rel, "c-")
         return orig_open(file, mode, *a, **k)
     builtins.open = open_w
+
+    if cache:
+        # tempfile creates its files with os.open; shutil copies with os.sendfile / os.copy_file_range between
+        # descriptors (the copy a cross-device move degrades to)
+        orig_os_open = os.open
+
+        def os_open(path, flags, *a, **k):
+            rel = ctracked(path)
+            if rel is not None and flags & (os.O_WRONLY | os.O_RDWR) and flags & (os.O_CREAT | os.O_TRUNC):
+                effect("c-open", rel)
+            return orig_os_open(path, flags, *a, **k)
+        os.open = os_open
+        for name in ("sendfile", "copy_file_range"):
+            if hasattr(os, name):
+                def mk(orig, out_idx):
+                    def w(*a, **k):
+                        rel = fds.get(a[out_idx]) if len(a) > out_idx else None
+                        if rel is not None:
+                            effect("c-write", rel)
+                        return orig(*a, **k)
+                    return w
+                setattr(os, name, mk(getattr(os, name), 0 if name == "sendfile" else 1))
     return state
 
 
@@ -274,15 +362,26 @@ def run_history(work, history):
     return stack, userdata
 
 
-def _killed_run(stack, userdata, op, kill_at, flush):
-    """run op in a grandchild that dies before effect kill_at (None: runs to completion); returns its report"""
+def _killed_run(stack, userdata, op, kill_at, flush, cache=False):
+    """run op in a grandchild that dies before effect kill_at (None: runs to completion); returns its report.
+    cache=True: TMPDIR names a directory on another file system (see install_injector) and the effects on the
+    product cache are crash points as well"""
+    tmproot = None
+    if cache:
+        tmproot = os.path.join(os.path.dirname(stack), "tmp")
+        shutil.rmtree(tmproot, ignore_errors=True)
+        os.makedirs(tmproot)
     r, w = os.pipe()
     pid = os.fork()
     if pid == 0:
         os.close(r)
         trace = []
         try:
-            st = install_injector(stack, kill_at, trace, flush)
+            if cache:
+                import tempfile
+                os.environ["TMPDIR"] = tmproot
+                tempfile.tempdir = None          # forget the directory chosen in the parent
+            st = install_injector(stack, kill_at, trace, flush, cache, tmproot)
             st["on_kill"] = lambda: os.write(w, json.dumps({"trace": trace, "outcome": "killed"}).encode())
             e = new_eups(stack, userdata, op["flavor"])
             try:
@@ -333,7 +432,19 @@ def _observe(stack, userdata, info, before):
     return out
 
 
-def case_run(history, op, flush=True, listdir=None):
+def crash_points(trace, thin):
+    """the crash points explored: all of them, or (thin) all but those between two consecutive writes to one
+    temporary file - the states they leave differ only in the length of a file no reader opens.  Writes to a
+    record itself (the in-place protocol) are never thinned"""
+    n = len(trace)
+    if not thin:
+        return list(range(n + 1))
+    return [k for k in range(n + 1)
+            if not (0 < k < n and trace[k][0] == "write" and is_tmpname(trace[k][1]) and
+                    trace[k - 1][0] == "write" and trace[k - 1][1] == trace[k][1])]
+
+
+def case_run(history, op, flush=True, listdir=None, cache=False, thin=False):
     """child: the state after history is built once; the operation is then run to completion and, from a
     restored copy of that state, killed before each of its effects.  Returns {"full": ..., "crashes": [...]}"""
     common.import_eups()
@@ -353,12 +464,12 @@ def case_run(history, op, flush=True, listdir=None):
         before = snapshot(stack)
         oldview = _observe(stack, userdata, None, before)["view"]
         restore()
-        full = _observe(stack, userdata, _killed_run(stack, userdata, op, None, flush), before)
-        n = len(full["info"]["trace"] or [])
+        full = _observe(stack, userdata, _killed_run(stack, userdata, op, None, flush, cache), before)
         crashes = []
-        for k in range(n + 1):
+        for k in crash_points(full["info"]["trace"] or [], thin):
             restore()
-            crashes.append(_observe(stack, userdata, _killed_run(stack, userdata, op, k, flush), before))
+            crashes.append(_observe(stack, userdata, _killed_run(stack, userdata, op, k, flush, cache), before))
+            crashes[-1]["k"] = k
         return {"full": full, "crashes": crashes, "oldview": oldview}
     finally:
         shutil.rmtree(work, ignore_errors=True)
@@ -433,6 +544,100 @@ def order_cases():
 
 def gen_history(rng):
     return [gen_op(rng) for _ in range(rng.choice([2, 3, 4, 5, 6]))]
+
+
+def repoint_cases():
+    """multi-flavor databases whose chain files hold several flavors pointing at DIFFERENT versions (a tag re-pointed
+    for one flavor only), alone and together with version files shared by two flavors; every kind of command on them"""
+    L, D = "Linux64", "Darwin"
+    dec = lambda fl, p, v, tag=None: {"op": "declare", "p": p, "v": v, "flavor": fl, "tag": tag}
+    tag = lambda fl, p, v, t: {"op": "tag", "p": p, "v": v, "flavor": fl, "tag": t}
+    und = lambda fl, p, v: {"op": "undeclare", "p": p, "v": v, "flavor": fl}
+    one = [dec(L, "a", "1", "current"), dec(D, "a", "2", "current")]
+    two = [dec(L, "a", "1", "current"), tag(L, "a", "1", "stable"), dec(D, "a", "2", "current"),
+           tag(D, "a", "2", "stable")]
+    out = [
+        (one, und(L, "a", "1")),
+        (one, und(D, "a", "2")),
+        (two, und(L, "a", "1")),                                        # two chain files lose one entry each
+        (two, und(D, "a", "2")),
+        (one + [dec(L, "a", "2")], tag(L, "a", "2", "current")),         # re-point one flavor onto the other's version
+        (one, {"op": "untag", "p": "a", "v": None, "flavor": L, "tag": "current"}),
+        ([dec(L, "a", "1", "current"), dec(D, "a", "1"), dec(D, "a", "2", "current")], und(L, "a", "1")),
+        (two + [dec(L, "b", "1", "current")], dec(L, "a", "2", "current")),   # declaration that moves the tag
+        ([dec(L, "b", "2", "stable"), dec(L, "b", "1"), dec(D, "b", "1", "stable")], und(D, "b", "1")),
+    ]
+    return [{"history": h, "op": op} for h, op in out]
+
+
+def gen_repointed(rng):
+    """random prior states of the same kind: one product declared for both flavors, each tag assigned per flavor to
+    an independently chosen version, a few operations on the other product in between; then any command on it"""
+    p = rng.choice(PRODUCTS)
+    q = [x for x in PRODUCTS if x != p][0]
+    h, have = [], {}
+    fls = list(FLAVORS)
+    rng.shuffle(fls)
+    for fl in fls:
+        vs = [v for v in VERSIONS if rng.random() < 0.75] or [rng.choice(VERSIONS)]
+        have[fl] = vs
+        for v in vs:
+            h.append({"op": "declare", "p": p, "v": v, "flavor": fl, "tag": None})
+    for t in TAGS:
+        for fl in fls:
+            if rng.random() < 0.8:
+                h.append({"op": "tag", "p": p, "v": rng.choice(have[fl]), "flavor": fl, "tag": t})
+    if rng.random() < 0.5:
+        h.insert(rng.randrange(len(h) + 1), {"op": "declare", "p": q, "v": rng.choice(VERSIONS),
+                                             "flavor": rng.choice(FLAVORS), "tag": rng.choice([None, "current"])})
+    fl = rng.choice(FLAVORS)
+    r = rng.random()
+    if r < 0.5:
+        op = {"op": "undeclare", "p": p, "v": rng.choice(have[fl]), "flavor": fl}
+    elif r < 0.65:
+        op = {"op": "untag", "p": p, "v": rng.choice([None] + have[fl]), "flavor": fl, "tag": rng.choice(TAGS)}
+    elif r < 0.85:
+        op = {"op": "tag", "p": p, "v": rng.choice(VERSIONS), "flavor": fl, "tag": rng.choice(TAGS)}
+    else:
+        op = {"op": "declare", "p": p, "v": rng.choice(VERSIONS), "flavor": fl, "tag": rng.choice([None] + TAGS)}
+    return {"history": h, "op": op}
+
+
+def cache_cases():
+    """commands whose cache rewrite (ProductStack.persist through utils.AtomicFile, the last thing every mutating
+    command does) is explored too, with TMPDIR on another file system than the stack and the user data: among them
+    the undeclare of the last version of a product, after which nothing in the database is newer than the caches"""
+    L, D = "Linux64", "Darwin"
+    dec = lambda fl, p, v, tag=None: {"op": "declare", "p": p, "v": v, "flavor": fl, "tag": tag}
+    tag = lambda fl, p, v, t: {"op": "tag", "p": p, "v": v, "flavor": fl, "tag": t}
+    und = lambda fl, p, v: {"op": "undeclare", "p": p, "v": v, "flavor": fl}
+    out = [
+        ([dec(L, "a", "1", "current"), dec(L, "b", "1", "current"), tag(L, "b", "1", "stable")], und(L, "b", "1")),
+        ([dec(L, "a", "1", "current"), dec(L, "a", "2")], tag(L, "a", "2", "current")),
+        ([dec(L, "a", "1")], dec(D, "a", "1")),
+        ([dec(L, "a", "1", "current"), dec(D, "a", "2", "current")], und(L, "a", "1")),
+        ([dec(D, "b", "2", "stable"), dec(L, "a", "1", "current")],
+         {"op": "untag", "p": "a", "v": None, "flavor": L, "tag": "current"}),
+    ]
+    return [{"history": h, "op": op, "cache": True} for h, op in out]
+
+
+def prior_shape(before):
+    """what the property names in the prior state, read off the record files: version files that hold several flavors,
+    chain files that hold several flavors, and chain files whose flavors point at different versions"""
+    out = set()
+    for p, lines in before.items():
+        if lines is None:
+            continue
+        fl = [l.split("=", 1)[1].strip() for l in lines if l.strip().startswith("FLAVOR")]
+        if len(fl) < 2:
+            continue
+        if p.endswith(".version"):
+            out.add("version-file-of-several-flavors")
+        elif p.endswith(".chain"):
+            vs = {l.split("=", 1)[1].strip() for l in lines if l.strip().startswith("VERSION")}
+            out.add("chain-flavors-at-different-versions" if len(vs) > 1 else "chain-of-several-flavors")
+    return "+".join(sorted(out)) or "single-flavor-records"
 
 
 # ------------------------------------------------------------------ model encoding
@@ -631,6 +836,32 @@ def compare_effect_sequences(ctx, cases):
                          where="record-level effect sequence of the operation (Db.effects vs real trace)")
 
 
+def compare_cache_helper(ctx, cases):
+    """tie of Model/CrashXdev.v: the system calls the real command performs on a cache file itself (not on a
+    temporary name), with repeated writes collapsed, against target_kinds of the model for a temporary file on the
+    target's file system - one rename per rewrite, nothing else"""
+    cc = [c for c in cases if c.get("cache")]
+    if not cc:
+        return
+    model = ctx.model(["helper\tsame\t1"])[0].split(",")
+    for c in cc:
+        per = {}
+        for kind, rel, _ in c["_full"]["info"]["trace"] or []:
+            if kind.startswith("c-") and ".pickleDB" in rel and not rel.endswith(".tmp"):
+                l = per.setdefault(os.path.basename(rel), [])
+                if not (l and l[-1] == kind[2:] == "write"):
+                    l.append(kind[2:])
+        for name, kinds in sorted(per.items()):
+            ctx.traces_validated += 1
+            ctx.bump("cache-rewrites-compared-with-the-helper-model", kinds.count("rename") or 1)
+            n = max(1, len(kinds) // len(model))
+            if kinds != model * n:
+                ctx.disagree({"history": c["history"], "op": c["op"], "cache": True},
+                             ",".join(model * n), ",".join(kinds),
+                             where="system calls on the cache file %s itself (Model/CrashXdev.target_kinds SameFs vs "
+                                   "the real trace): the temporary file is not installed by a rename" % name)
+
+
 # ------------------------------------------------------------------ oracle
 
 def oracle(case, k, old, new, res, trace):
@@ -664,27 +895,64 @@ def oracle(case, k, old, new, res, trace):
     return None
 
 
+def view_maps(view):
+    """what a reader reports, keyed: declarations {(product, version, flavor): directory} and tag assignments
+    {(product, tag, flavor): version}"""
+    decls, tags = {}, {}
+    for fl in view:
+        if fl == "_tags":
+            continue
+        for name, version, flavor, d, _ in view[fl]:
+            decls[(name, version, flavor)] = d
+    for name, tag, flavor, version in view.get("_tags", []):
+        tags[(name, tag, flavor)] = version
+    return decls, tags
+
+
+def op_targets(op, old_tags):
+    """the declarations and tag assignments a command is aimed at: the (product, version, flavor) it declares or
+    undeclares, the (product, tag, flavor) it assigns or unassigns, and for an undeclare the tags that pointed at the
+    version it removes (for that flavor).  Everything else - other products, other flavors, other versions of the
+    product, tags of the product that point elsewhere - is not the target"""
+    p, fl, k = op["p"], op["flavor"], op["op"]
+    D, T = set(), set()
+    if k in ("declare", "tag"):
+        D.add((p, op["v"], fl))
+        # a declaration that names no tag makes the first version of a product current (Eups.declare says so): the
+        # assignment of current for that flavor is then what the command is aimed at as well
+        T.add((p, op.get("tag") or "current", fl))
+    elif k == "untag":
+        T.add((p, op["tag"], fl))
+    elif k == "undeclare":
+        D.add((p, op["v"], fl))
+        T |= {key for key, v in old_tags.items() if key[0] == p and key[2] == fl and v == op["v"]}
+    return D, T
+
+
 def view_frame(case, old_view, new_view, res):
-    """declarations and tags of products the operation does not name are reported exactly as before"""
+    """every declaration and tag that was not the target of the command is reported exactly as before (at every
+    crash point and after the completed command); the targets read as before or as after the completed command"""
     if res["view"] is None:
         return None
+    od, ot = view_maps(old_view)
+    nd, nt = view_maps(new_view)
+    ad, at = view_maps(res["view"])
+    D, T = op_targets(case["op"], ot)
     p = case["op"]["p"]
-    for fl in FLAVORS:
-        o = [r for r in old_view[fl] if r[0] != p]
-        a = [r for r in res["view"][fl] if r[0] != p]
-        if o != a:
-            return ("bystander-changed", "entries of other products changed for flavor %s: %r -> %r" % (fl, o, a))
-        # the target product: every reported (version, flavor) row is an old row or a new row up to its tags
-        olds = {(r[1], r[2], r[3]) for r in old_view[fl] if r[0] == p}
-        news = {(r[1], r[2], r[3]) for r in new_view[fl] if r[0] == p}
-        for r in res["view"][fl]:
-            if r[0] == p and (r[1], r[2], r[3]) not in olds | news:
-                return ("target-garbled", "row %r is neither an old nor a new declaration" % (r,))
-        # a declaration that exists before and after must not vanish in between
-        for key in olds & news:
-            if key not in {(r[1], r[2], r[3]) for r in res["view"][fl] if r[0] == p}:
-                return ("declaration-lost", "declaration %r of %s (flavor %s) exists before and after the operation "
-                        "but is missing after the crash" % (key, p, fl))
+    for what, o, n, a, tgt in (("declaration", od, nd, ad, D), ("tag assignment", ot, nt, at, T)):
+        for key in sorted(set(o) | set(a)):
+            if key in tgt:
+                continue
+            if o.get(key, "ABSENT") != a.get(key, "ABSENT"):
+                kind = "bystander-changed" if key[0] != p else "untargeted-%s-changed" % what.split()[0]
+                return (kind, "%s %r (product, %s, flavor) is not the target of the command but is reported as %r "
+                        "instead of %r" % (what, key, "version" if what == "declaration" else "tag",
+                                           a.get(key, "ABSENT"), o.get(key, "ABSENT")))
+        for key in sorted(tgt):
+            if a.get(key, "ABSENT") not in (o.get(key, "ABSENT"), n.get(key, "ABSENT")):
+                kind = "declaration-lost" if (what == "declaration" and key not in a) else "target-garbled"
+                return (kind, "%s %r reads as %r: neither as before the command (%r) nor as after it (%r)" %
+                        (what, key, a.get(key, "ABSENT"), o.get(key, "ABSENT"), n.get(key, "ABSENT")))
     return None
 
 
@@ -701,7 +969,8 @@ def corpus_cases():
 
 
 def explore(ctx, cases, flush=True):
-    runs = common.par_map(case_run, [(c["history"], c["op"], flush, c.get("listdir")) for c in cases], timeout=900)
+    runs = common.par_map(case_run, [(c["history"], c["op"], flush, c.get("listdir"), bool(c.get("cache")),
+                                      bool(c.get("thin")) or not flush) for c in cases], timeout=900)
     jobs, res = [], []
     for c, r in zip(cases, runs):
         if r[0] != "ok":
@@ -710,10 +979,11 @@ def explore(ctx, cases, flush=True):
         c["_full"] = r["full"]
         if r["oldview"] is not None:
             c["_oldview"] = r["oldview"]
-        for k, cr in enumerate(r["crashes"]):
-            jobs.append((c, k))
+        for cr in r["crashes"]:
+            jobs.append((c, cr["k"]))
             res.append(("ok", cr))
     compare_effect_sequences(ctx, cases)
+    compare_cache_helper(ctx, cases)
     lines, meta = [], []
     vlines, vmeta = [], []
     for (c, k), r in zip(jobs, res):
@@ -723,7 +993,13 @@ def explore(ctx, cases, flush=True):
         full_r = c["_full"]
         old, new = full_r["before"], full_r["after"]
         trace = full_r["info"]["trace"] or []
-        shape = "%s/%s/%s" % (c["op"]["op"], "effects=%d" % min(len(trace), 9), "flushed" if flush else "buffered")
+        ndb = len([1 for kind, _, _ in trace if not kind.startswith("c-")])
+        shape = "%s/%s/%s/%s" % (c["op"]["op"], "effects=%d" % min(ndb, 9), "flushed" if flush else "buffered",
+                                 prior_shape(old))
+        if c.get("cache"):
+            shape += "/cache-effects=%d,TMPDIR-on-another-file-system" % min(len(trace) - ndb, 30)
+            ctx.bump("crash-points-inside-the-cache-rewrite" if k < len(trace) and trace[k][0].startswith("c-")
+                     else "crash-points-of-cache-cases-elsewhere")
         nontrivial = len(trace) > 0 and old != new
         ctx.count(1, key=shape, nontrivial=(json.dumps([c["history"], c["op"], k, flush], sort_keys=True)
                                             if nontrivial else None))
@@ -733,7 +1009,9 @@ def explore(ctx, cases, flush=True):
             o = view_frame(c, c["_oldview"], full_r["view"], r)
         if o is not None:
             ctx.fail(o[0], dict({"history": c["history"], "op": c["op"], "kill_before_effect": k, "flush": flush},
-                                **({"listdir": c["listdir"]} if c.get("listdir") else {})),
+                                **dict(({"listdir": c["listdir"]} if c.get("listdir") else {}),
+                                       **dict(({"cache": True} if c.get("cache") else {}),
+                                              **({"thin": True} if c.get("thin") else {})))),
                      expected="old or new form of every record; reader succeeds", observed=o[1], what=o[1])
         # model comparison: completed main effects among the first k real effects
         effs, writes = effects_from(trace, new)
@@ -806,7 +1084,13 @@ def run(ctx):
                 "one of its file-system effects (open/write/close/rename/unlink/mkdir/rmdir under ups_db); a case is "
                 "non-trivial when the completed operation changes the database; distinct = distinct (history, op, k); "
                 "plus histories of 2-7 operations whose last operation is only run to completion, for the comparison "
-                "of its ordered record-level effects with the model's")
+                "of its ordered record-level effects with the model's; plus directed and random prior states in which "
+                "each tag of a product is assigned per flavor to an independently chosen version (chain files whose "
+                "flavors point at different versions), followed by any command on that product; plus cases (key "
+                "suffix cache-effects=n,TMPDIR-on-another-file-system) in which the effects on the product cache "
+                "(temporary file, rename or copy, unlink) are crash points too and TMPDIR lies across a file-system "
+                "boundary (rename/link across it fail with EXDEV); the key names the prior state: version file of "
+                "several flavors, chain of several flavors, chain flavors at different versions")
     ctx.trusted_base = common.COMMON_TRUSTED + [
         "crash = the process stops between two file-system calls (os._exit in an injected wrapper); rename, unlink, "
         "mkdir, rmdir are atomic; no power loss (fsync) semantics",
@@ -814,7 +1098,10 @@ def run(ctx):
         "real run; its kinds and paths, in order, are compared with Model/CrashDb.image of Db.effects for the same "
         "operation on the model state reached by the same history (record contents are not compared: abstract)",
         "Eups.declare without a directory finds <stack>/<flavor>/<product>/<version> by itself (not modelled in Db.v); "
-        "the harness encodes such operations with that directory given"]
+        "the harness encodes such operations with that directory given",
+        "second file system: emulated in the killed process by making os.rename/os.replace/os.link between the "
+        "directory TMPDIR names and the rest of the work area raise OSError(EXDEV); data written to a cache file "
+        "through os.sendfile/os.copy_file_range or file.write is one crash point per call"]
     ctx.assumptions = ["POSIX atomicity of rename/unlink/mkdir/rmdir", "one writer at a time (C09 provides it)"]
     ctx.check_theorems()
     cases = corpus_cases() + directed_cases()
@@ -827,7 +1114,17 @@ def run(ctx):
         c["listdir"] = forced
     for c in cases[:3]:
         ctx.sample({"history": c["history"], "op": c["op"]})
-    explore(ctx, cases, flush=True)
+    # prior states with chain files re-pointed per flavor (directed and random), and cases whose cache rewrite is
+    # explored as well, with TMPDIR on another file system
+    extra = repoint_cases() + [gen_repointed(ctx.rng) for _ in range(ctx.size(10, 150))]
+    extra += cache_cases()
+    for _ in range(ctx.size(4, 60)):
+        h = gen_history(ctx.rng)
+        extra.append({"history": h[:-1], "op": h[-1], "cache": True})
+    for c in extra:
+        c["listdir"] = forced
+        c["thin"] = True
+    explore(ctx, cases + extra, flush=True)
     # many more operations for the effect-sequence tie alone (completed runs, no crash points: cheap)
     seq = []
     for _ in range(ctx.size(150, 2500)):
@@ -851,14 +1148,15 @@ def run(ctx):
     if not forced:
         n1, n2 = ctx.rng.randrange(1 << 30), ctx.rng.randrange(1 << 30)
         for mode in ("sorted", "reversed", "shuffle:%d" % n1, "perpid:%d" % n2):
-            explore(ctx, [dict(c, listdir=mode) for c in order_cases() +
+            explore(ctx, [dict(c, listdir=mode, thin=True) for c in order_cases() +
                           (directed_cases() if mode.startswith(("reversed", "shuffle")) else [])], flush=True)
 
 
 def replay(ctx, path):
     obj = json.load(open(path))
     i = obj["input"]
-    c = {"history": i["history"], "op": i["op"], "listdir": i.get("listdir")}
+    c = {"history": i["history"], "op": i["op"], "listdir": i.get("listdir"), "cache": bool(i.get("cache")),
+         "thin": bool(i.get("thin"))}
     explore(ctx, [c], flush=i.get("flush", True))
     bad = [f for f in ctx.failures if not ctx._known(f)] or ctx.disagreements
     print("replay %s: %s" % (path, "still fails" if bad else "passes"))
